@@ -232,3 +232,27 @@ package analysis
 //@   loop range:node.KeyExps step [canonical-key-of-every-keyed-field-is-recorded] len(strKey) > 0 ==> has(tabKeyMap, strKey)
 //@   at call InsertRelateError#0 before assert[duplicate-key-only-for-a-canonical-key-seen-before] arg1 == common.CheckErrorTableDuplicateKey && has(tabKeyMap, strKey) && arg3 == loc
 //@ end
+
+// ---- C20: more names than values in a local declaration (type 8) ----
+// `local a, b, c = x, 1` leaves c without a value: reported only when EVERY initialiser is single-valued (a name or a
+// literal) - a call, "...", a table or an operator expression anywhere in the list may supply the missing values or is
+// not judged; and "more values than names" only when there are more values than names
+//@ func (*Analysis).cgLocalVarDeclStat
+//@   props C20
+//@   at call InsertError#0 before assert[too-many-values-pattern] arg1 == common.CheckErrorLocalParamNum && len(node.NameList) < len(node.ExpList)
+//@   at call InsertError#1 before assert[shortfall-only-when-every-initialiser-is-single-valued] arg1 == common.CheckErrorLocalParamNum
+//@        && len(node.NameList) > len(node.ExpList) && forall(k, 0, len(node.ExpList), common.IsOneValueType(node.ExpList[k]))
+//@   loop for:i<nExps invariant [C20] 0 <= i && i <= nExps && nExps == len(node.ExpList) && nNames == len(node.NameList) && nNames > nExps
+//@        && (canWarning ==> forall(k, 0, i, common.IsOneValueType(node.ExpList[k])))
+//@ end
+
+// ---- C05: a for loop's control variables are visible in its body only ----
+// every control variable records the range of the loop body (IsCorrectPosition confines its visibility to that range)
+//@ func (*Analysis).cgForNumStat
+//@   props C05 C06 C11
+//@   at call cgBlock#0 before assert[control-variable-is-confined-to-the-loop-body] locVar.ForBodyLoc == node.Block.Loc
+//@ end
+//@ func (*Analysis).cgForInStat
+//@   props C05 C06 C11
+//@   loop range:node.NameList step [control-variable-is-confined-to-the-loop-body] locVar.ForBodyLoc == node.Block.Loc
+//@ end
